@@ -483,6 +483,7 @@ TRUSTED_BASE = [
     "fvc engine (/verif/fvc): path explorer, symbolic scalars, SymArr tensor model, finite-sum normaliser (linearity, constant sum, Fubini order)",
     "z3 4.x/5.1 (unsat believed); cvc5 as second opinion on unknown",
     "primitive contracts of numpy operations as implemented in fvc/symnp.py (einsum, tile, basic/advanced indexing, ufuncs, reductions, view/copy rules); differential-tested against numpy by the CPython cross-check on every run (bounded)",
+    "enumeration contracts: flatten() and pandas MultiIndex.from_product are the same C-order bijection between row numbers and index tuples when their extents agree (COrder); np.nonzero / np.argwhere enumerate exactly the selected index tuples, each once (SelOrder); row-level contracts of pandas DataFrame / set_index / reset_index / from_arrays and of the ~15 table operations of the importer's placement half (fvc/symtable.py) -- assumed, differential-tested against real pandas by the cross-check",
     "CPython semantics of everything that is not symbolic (pydantic construction/validation, containers, control flow) -- executed for real, not modelled",
     "float arithmetic treated as real arithmetic (no rounding, overflow, inf, NaN unless a unit says so)",
     "rank / letter-overlap / storage-order / key-form skeletons are enumerated up to the stated bound; within a skeleton all sizes, entries and items are symbolic",
